@@ -130,6 +130,14 @@ class EmuFunc:
                 root = l
                 while root is not None and root.k in ("MemberExpr", "ArraySubscriptExpr"):
                     root = strip_casts(root.c[0])
+                slot = None
+                for x in l.walk():
+                    slot = slot or self._slot(x)
+                if slot is not None and not (root is not None and root.k == "DeclRefExpr" and root.name in self.ptrs):
+                    # ((T*)ex->dest_ptrs[k])->i = ... : accumulator update through the operand slot itself
+                    if slot[0] != "dest":
+                        self.other_stores.append((n, "store through source slot " + unparse(l)))
+                    continue
                 if root is None:
                     self.other_stores.append((n, unparse(l)))
                 elif root.k == "DeclRefExpr":
